@@ -51,7 +51,7 @@ func main() {
 				"accepted=accept/primes", "rejected=accept/primes", "prime=ntt61bit-last", "prime=ntt-above-2^64/6", "prime=carmichael-1729", "prime=value-0",
 				"list=duplicate-in-Q", "list=Q-and-P-share-a-modulus", "size=60@0", "size=61@1", "size=64@0", "nthroot=6", "nthroot=62",
 				"dist=Xs=ternary-H=N", "dist=Xe=gaussian-3.2", "dist-invalid=Xs=ternary-H=N+1", "dist-invalid=Xe=gaussian-sigma<0", "bgv-t=t=q0", "bgv-t=t-just-above-q0/2", "bgv-t=17(order16)", "bgv-big-t=61", "ckks-scale=0", "ckks-scale=128", "ckks-scale=129",
-				"ckks-encode=checked", "bgv=mulrelin-checked", "btp=ordinary", "btp=S2C-depth=LogSlots", "btp-defaults=SlotsToCoeffs=min(3,LogSlots)x39", "btp-defaults=all-of-the-above", "long-chain=M=33", "long-chain=M=64", "long-chain=P-last=Q-first", "long-chain=valid", "json=own-encoding", "json=own-encoding-into-used-receiver", "json=unknown-field", "json=Xs-unknown-type", "accepted=accept/btp", "rejected=accept/btp", "gen=generated", "retained=literal.Q", "retained=literal.P", "retained=literal.LogQ", "retained=returned-Q()", "retained=literal.CoeffsToSlots", "retained=json-buffer", "gen-literal=ci-own+4", "gen-literal=std-own+4", "gen-literal=ci-unset", "generator=upstream", "generator=downstream", "generator=alternating", "generator=exhausted-with-error",
+				"ckks-encode=checked", "bgv=mulrelin-checked", "btp=ordinary", "btp=S2C-depth=LogSlots", "btp-defaults=SlotsToCoeffs=min(3,LogSlots)x39", "btp-defaults=all-of-the-above", "long-chain=M=33", "long-chain=M=64", "long-chain=P-last=Q-first", "long-chain=valid", "json=own-encoding", "json=own-encoding-into-used-receiver", "json=unknown-field", "json=Xs-unknown-type", "accepted=accept/btp", "rejected=accept/btp", "gen=generated", "derived=mixed-sizes", "derived=largest-P-not-last", "retained=literal.Q", "retained=literal.P", "retained=literal.LogQ", "retained=returned-Q()", "retained=literal.CoeffsToSlots", "retained=json-buffer", "gen-literal=ci-own+4", "gen-literal=std-own+4", "gen-literal=ci-unset", "generator=upstream", "generator=downstream", "generator=alternating", "generator=exhausted-with-error",
 				"exhausted=NextUpstreamPrime", "exhausted=NextDownstreamPrime", "exhausted=NextAlternatingPrime",
 				"roundtrip=rlwe", "roundtrip=NTTFlag=false", "roundtrip=StandardParameters-of-conjugate-invariant", "roundtrip=bgv", "roundtrip=ckks", "security=catalogue", "security=claim-checked", "security=kind=standard", "security=kind=repo-statement", "security=class=H32"}
 		},
